@@ -225,6 +225,7 @@ type vExpObs struct {
 	wfrFailed int64 // items of wait-for-result Sends that returned the export's error
 	sends     []int64 // what each Send through a queue returned (0 nil, 1 full, 2 too large, 3 context error); not with wait_for_result
 	gaveUp    int64 // items of producers that gave up while blocked on a full queue
+	abandoned int64 // items of wait-for-result producers whose context ended while their request was pending
 	p         *vPusher
 	executed  int    // number of ops executed (the history is cut when an export hangs until shutdown)
 	problem   string // oracle problem detected while running (gauge mismatch, no quiescence, ...)
@@ -304,7 +305,7 @@ func vC19RunExp(_ *testing.T, cfg vECfg, outs []vEOut, ops []vEOp) vExpObs {
 	}
 	// quiescence: every accepted item is finished or parked in the current batch (or the pipeline is hung)
 	quiesce := func() {
-		deadline := time.Now().Add(60 * time.Second)
+		deadline := time.Now().Add(20 * time.Second)
 		for {
 			p.mu.Lock()
 			fin, hung := p.finished, p.hung
@@ -357,10 +358,24 @@ func vC19RunExp(_ *testing.T, cfg vECfg, outs []vEOut, ops []vEOp) vExpObs {
 		}
 	}
 	nsends := 0
+	gated := false // the pusher gate is closed (burst in progress)
 	send := func(n int) {
 		obs.offered += int64(n)
 		nsent++
 		ctx := context.Background()
+		if qb != nil && cfg.effWFR() && gated {
+			// wait_for_result behind a blocked backend: the producer's context ends while its request is queued /
+			// being exported; Send returns the context's error, the request stays and is exported later
+			var cancel context.CancelFunc
+			if nsends%2 == 0 {
+				ctx, cancel = context.WithTimeout(ctx, 20*time.Millisecond)
+			} else {
+				ctx, cancel = context.WithCancel(ctx)
+				tm := time.AfterFunc(20*time.Millisecond, cancel)
+				defer tm.Stop()
+			}
+			defer cancel()
+		}
 		if qb != nil && cfg.block && !cfg.effWFR() {
 			// a producer blocked on a full queue gives up when its context ends: alternately a deadline and a cancel
 			var cancel context.CancelFunc
@@ -401,6 +416,10 @@ func vC19RunExp(_ *testing.T, cfg vECfg, outs []vEOut, ops []vEOp) vExpObs {
 			obs.refused += int64(n)
 			obs.gaveUp += int64(n)
 			note(3)
+		case cfg.effWFR() && gated && (errors.Is(err, context.DeadlineExceeded) || errors.Is(err, context.Canceled)):
+			// the producer stopped waiting for the result; its request was enqueued and is exported later
+			accepted += int64(n)
+			obs.abandoned += int64(n)
 		case cfg.effWFR():
 			accepted += int64(n)
 			obs.wfrFailed += int64(n)
@@ -431,9 +450,15 @@ func vC19RunExp(_ *testing.T, cfg vECfg, outs []vEOut, ops []vEOp) vExpObs {
 			p.entered = 0
 			p.mu.Unlock()
 			first := true
+			gated = true
+			acceptedBefore := accepted
+			burstReqs := int64(0)
 			for _, n := range op.ns {
 				before := accepted
 				send(n)
+				if accepted > before {
+					burstReqs++
+				}
 				if cfg.effStorage() && first && accepted > before && !isHung() {
 					// persistent queue: the consumer reads the first request (size bookkeeping changes at Read)
 					first = false
@@ -449,12 +474,38 @@ func vC19RunExp(_ *testing.T, cfg vECfg, outs []vEOut, ops []vEOp) vExpObs {
 					}
 				}
 			}
+			burstSize := accepted - acceptedBefore
+			_ = burstSize
 			readGauges()
+			if obs.problem == "" && !cfg.batching() && !cfg.effStorage() && !isHung() {
+				// independent of the model: nothing was outstanding before the burst and nothing is done yet, so the size
+				// gauge must be the summed size of the requests this burst got into the queue
+				want := burstSize
+				if !cfg.itemsSizer || !cfg.queue {
+					want = burstReqs
+				}
+				if got := obs.gauges[len(obs.gauges)-1]; got != want {
+					obs.problem = fmt.Sprintf("gauge: queue_size reads %d while the %d accepted request(s) of the burst (size %d) are all still pending", got, burstReqs, want)
+				}
+			}
 			p.mu.Lock()
 			p.gate = nil
 			p.mu.Unlock()
 			close(g)
+			gated = false
 			quiesce()
+			if cfg.effWFR() && qb != nil {
+				// nobody waits any more: the parked batch goes out with the (real) flush timer
+				dl := time.Now().Add(60 * time.Second)
+				for time.Now().Before(dl) {
+					if _, _, has := queuebatch.VerifC19Parked(qb); !has {
+						break
+					}
+					time.Sleep(time.Millisecond)
+				}
+				quiesce()
+			}
+			readGauges()
 		case 3:
 			// as a burst, but the gate stays closed: Shutdown is called while the backend is still blocked
 			g := make(chan struct{})
@@ -600,6 +651,13 @@ func vC19GenExp(rng *vRand) (cfg vECfg, outs []vEOut, ops []vEOp, class string) 
 		}
 		// (failing exports here are the regression stream of the repaired C19-WFR: the Send returns the export's
 		// error, send_failed moves, enqueue_failed must not)
+		// gated Sends of producers whose context ends while their request is pending.  Only without the retry sender:
+		// with wait_for_result the export runs under the PRODUCER's context, so after it has ended the retry sender
+		// gives up at once ("request is cancelled or timed out") - a per-request context the model does not carry
+		// ... and only for the explicit wait_for_result queue: with the batcher-only configuration the REAL flush timer
+		// (needed by the waiting single Sends) would flush parked batches while the gate is closed, making the batch
+		// composition depend on timing
+		allowBurst = !cfg.retry && !cfg.batcher
 	case 5:
 		class = "persistent"
 		cfg.queue, cfg.storage = true, true
@@ -816,8 +874,8 @@ func vC19ExpOracle(out *vOut, cfg vECfg, term string, o vExpObs) {
 		}
 	}
 	p := o.p
-	desc := fmt.Sprintf("tracer_mode=%d sent=%d send_failed=%d enqueue_failed=%d offered=%d stored=%d | truth: ok=%d failed=%d refused=%d (gave_up_blocked=%d) shutdown_interrupted=%d wfr_failed=%d storage=%v wfr=%v",
-		cfg.telMode, sent, failed, enq, o.offered, o.stored, p.okItems, p.errItems, o.refused, o.gaveUp, p.shutItems, o.wfrFailed, cfg.effStorage(), cfg.effWFR())
+	desc := fmt.Sprintf("tracer_mode=%d sent=%d send_failed=%d enqueue_failed=%d offered=%d stored=%d | truth: ok=%d failed=%d refused=%d (gave_up_blocked=%d) abandoned_by_waiting_producer=%d shutdown_interrupted=%d wfr_failed=%d storage=%v wfr=%v",
+		cfg.telMode, sent, failed, enq, o.offered, o.stored, p.okItems, p.errItems, o.refused, o.gaveUp, o.abandoned, p.shutItems, o.wfrFailed, cfg.effStorage(), cfg.effWFR())
 	if o.problem != "" && len(o.problem) > 13 && o.problem[:13] == "no-quiescence" && lhs != rhs {
 		// items that were taken and never came out: report the imbalance itself
 		out.Oracle("exporter-imbalance", term, fmt.Sprintf("excess=%d (%s) | %s", lhs-rhs, o.problem, desc))
